@@ -3,7 +3,7 @@ import ast
 
 from ..loader import AnalysisError, attr_path, src, walk_no_nested_defs, norm_stmt, call_name
 from ..symx import SymX, show, C, TRUE, FALSE, simp, is_const, mk_mul, is_term
-from . import C08
+from . import C08, shared
 
 EXPLANATION = (
     "(1) percentage conversion: in prob_to_str the float product prob*100 reaches str() through a rounding conversion "
@@ -56,6 +56,11 @@ def r1_conversion(ctx, chk, rule="C17.1"):
             return t[1]
         if t[0] == "floordiv":
             return "//"
+        # the integer part split off the product: divmod(x, 1)[0], math.modf(x)[1], x - x % 1
+        if t[0] == "idx" and t[1][0] == "call" and t[1][1] == "divmod" and len(t[1][2]) == 2 and t[1][2][0] in prod and t[1][2][1] in (C(1), C(1.0)) and t[2] == C(0):
+            return "divmod(.., 1)[0]"
+        if t[0] == "idx" and t[1][0] == "call" and t[1][1] == "math.modf" and len(t[1][2]) == 1 and t[1][2][0] in prod and t[2] == C(1):
+            return "math.modf(..)[1]"
         return None
     if r[0] == "call" and r[1] == "str" and len(r[2]) == 1:
         x = r[2][0]
@@ -438,6 +443,7 @@ def r3_matrix_max(ctx, chk, rule="C17.4"):
 
 
 def run(ctx, chk):
+    shared.rule_mutable_defaults(ctx, chk, "C17.0:defaults", shared.GENERATOR_MODULES)      # a call must not depend on the calls made before it
     from . import C15 as _C15
     _C15.parse_args_source(ctx, chk, "C17.2")        # the name states the parameters of this invocation only if this invocation's arguments are parsed
     r3_matrix_max(ctx, chk)
